@@ -1,7 +1,13 @@
 /* correspondence harness for the HTTP/1.1 chunked request-body decoder (C01, C09, C12)
  * op: chunked <max_request_size_kB> <max_field_size> <hex seg> [<hex seg> ...]
  *   feeds the segments one by one into the read queue, calling h1_chunked() after each
- *   (as h1_reqbody_read() does), prints after the last segment:
+ *   (as h1_reqbody_read() does); chunkqueue_append_mem() extends the last read buffer while it has
+ *   room (what connection_read_cq() does with small reads), so the segments share a buffer.
+ * op: chunkedb ... same, but every segment becomes a chunkqueue chunk (read buffer) of its own, as
+ *   happens on a real connection when a read does not fit the previous buffer (a burst longer than
+ *   8191 bytes, or a segment arriving when less than half a buffer is free): every cut is a buffer
+ *   boundary.
+ *   prints after the last segment:
  *     more te=<n> out=<hex> rest=<n> ka=<0|1>
  *     done out=<hex> rest=<n> ka=<0|1>
  *     err <status>
@@ -21,7 +27,8 @@ int main(void) {
     r->conf.errh = fdlog_init(NULL, open("/dev/null", O_WRONLY), FDLOG_FD);
     chunkqueue_set_tempdirs_default(NULL, 0);
     while (ltv_next()) {
-        if (ltv_ntok < 4 || 0 != strcmp(ltv_tok[0], "chunked")) { puts("bad-op"); continue; }
+        if (ltv_ntok < 4 || (0 != strcmp(ltv_tok[0], "chunked") && 0 != strcmp(ltv_tok[0], "chunkedb"))) { puts("bad-op"); continue; }
+        const int sepbuf = (0 == strcmp(ltv_tok[0], "chunkedb"));
         r->conf.max_request_size = (unsigned int)atoi(ltv_tok[1]);
         r->conf.max_request_field_size = (unsigned int)atoi(ltv_tok[2]);
         r->x.h1.te_chunked = 0;
@@ -38,7 +45,12 @@ int main(void) {
         int err = 0, done = 0;
         for (int i = 3; i < ltv_ntok && !err; ++i) {
             size_t n; unsigned char *seg = ltv_unhex(ltv_tok[i], &n);
-            if (n) chunkqueue_append_mem(cq, (char *)seg, n);
+            if (n && sepbuf) {
+                chunkqueue tmp; memset(&tmp, 0, sizeof(tmp));
+                chunkqueue_append_mem_min(&tmp, (char *)seg, n);   /* empty queue: always a new chunk */
+                chunkqueue_append_chunkqueue(cq, &tmp);            /* links the chunk behind the others */
+            }
+            else if (n) chunkqueue_append_mem(cq, (char *)seg, n);
             free(seg);
             if (done) continue;
             chunkqueue_remove_finished_chunks(cq);
